@@ -3,7 +3,7 @@
    law is used, so they hold verbatim for Z, Q, R and for IEEE floats with a fixed summation order);
    the centring lemmas hold for every Op satisfying ring_theory. *)
 From Coq Require Import List Arith ZArith Ring Permutation Reals Lia.
-From TLV Require Import Base.Shape Base.PyList Base.Tensor Base.Ops Model.Base Model.Regress Proofs.RegressProofs Proofs.RegressProofsPlsr Proofs.RegressProofsR Proofs.RegressProofsLink.
+From TLV Require Import Base.Shape Base.PyList Base.Tensor Base.Ops Model.Base Model.Regress Proofs.RegressProofs Proofs.RegressProofsPlsr Proofs.RegressProofsR Proofs.RegressProofsLink Proofs.RegressProofsBlock.
 From TLV Require Model.Factorized Proofs.FactorizedProofs5.
 Import ListNotations.
 
@@ -252,6 +252,67 @@ Corollary C19_cp_concrete_fit_predict : forall (F : Type) (Op : fops F)
 Proof. exact @cp_concrete_fit_predict. Qed.
 Print Assumptions C19_cp_concrete_fit_predict.
 
+Corollary C19_tucker_concrete_fit_predict : forall (F : Type) (Op : fops F)
+  (solve : nat -> tensor F -> tensor F -> tensor F) (reg : F) (Xtr ytr : tensor F)
+  (nrm : tensor F -> F) (small : F -> F -> bool) (n_iter : nat) (w0 : tensor F * list (tensor F)) (st : reg_stored)
+  (X : tensor F) (n : nat) (sx : list nat),
+  reg_fit (tk_concrete_sweep Op solve reg Xtr ytr) (tucker_rebuild Op) nrm small n_iter w0 = Ok st ->
+  wf X -> shape X = n :: sx -> sx <> [] -> factor_rows (snd (r_blocks st)) = sx -> 0 < n ->
+  exists P, rbind (r_vec st) (fun v => predict_tucker Op v X) = Ok P /\ shape P = [n] /\
+    forall i, i < n ->
+      tget Op P [i] = fsum_idx Op sx (fun J => fmul Op (tget Op X (i :: J))
+        (fsum_idx Op (shape (fst (r_blocks st))) (fun K => fmul Op (tget Op (fst (r_blocks st)) K) (tk_coeff Op (snd (r_blocks st)) J K)))).
+Proof. exact @tucker_concrete_fit_predict. Qed.
+Print Assumptions C19_tucker_concrete_fit_predict.
+
+(* the design matrices of the concrete ridge blocks are the matrices of  W_i |-> predictions : row (s, o) of phi applied to
+   vec(W_i) is the contraction of sample s with the CP reconstruction (unit weights) of the current factors at output index o,
+   i.e. what predict computes from weight_tensor_ -- each block regresses y on exactly the predictions (commutative ring;
+   every per-sample order, every output shape, every rank) *)
+Theorem C19_cp_phi_in_linear : forall (F : Type) (Op : fops F), is_ring Op ->
+  forall (X : tensor F) (fs : list (tensor F)) (so : list nat) (R i n : nat) (sx : list nat) (s : nat) (o : list nat),
+  shape X = n :: sx -> i < length sx -> length sx <= length fs -> 0 < R -> s < n -> inb so o ->
+  fsumn Op (nth i sx 0 * R)
+        (fun c => fmul Op (tget Op (cp_phi_in Op X fs so R i) [ravel (n :: so) (s :: o); c])
+                          (tget Op (nth i fs (mk [] [])) [c / R; c mod R]))
+  = fsum_idx Op sx (fun J => fmul Op (tget Op X (s :: J)) (fsumn Op R (fun r => cp_coeff Op fs (J ++ o) r))).
+Proof. exact @cp_phi_in_linear. Qed.
+Print Assumptions C19_cp_phi_in_linear.
+
+Theorem C19_cp_phi_out_linear : forall (F : Type) (Op : fops F), is_ring Op ->
+  forall (X : tensor F) (fs : list (tensor F)) (so : list nat) (R i n : nat) (sx : list nat) (s : nat) (o' : list nat) (c : nat),
+  shape X = n :: sx -> length sx <= i -> i < length fs -> i - length sx < length so -> s < n ->
+  inb (remove_nth (i - length sx) so) o' ->
+  fsumn Op R (fun r => fmul Op (tget Op (cp_phi_out Op X fs so R i) [ravel (n :: remove_nth (i - length sx) so) (s :: o'); r])
+                               (tget Op (nth i fs (mk [] [])) [c; r]))
+  = fsum_idx Op sx (fun J => fmul Op (tget Op X (s :: J))
+                                     (fsumn Op R (fun r => cp_coeff Op fs (J ++ insert_at (i - length sx) c o') r))).
+Proof. exact @cp_phi_out_linear. Qed.
+Print Assumptions C19_cp_phi_out_linear.
+
+(* the same for TuckerRegressor: row s of the design matrix of factor block i applied to vec(W_i), and of the core block
+   applied to vec(G), is the contraction of sample s with the Tucker reconstruction of the current (core, factors) *)
+Theorem C19_tk_phi_mode_linear : forall (F : Type) (Op : fops F), is_ring Op ->
+  forall (X G : tensor F) (fs : list (tensor F)) (i n : nat) (sx : list nat) (s : nat),
+  shape X = n :: sx -> i < length sx -> length sx <= length fs -> length (shape G) = length sx ->
+  0 < nth i (shape G) 0 -> s < n ->
+  fsumn Op (nth i sx 0 * nth i (shape G) 0)
+        (fun c => fmul Op (tget Op (tk_phi_mode Op X G fs i) [s; c])
+                          (tget Op (nth i fs (mk [] [])) [c / nth i (shape G) 0; c mod nth i (shape G) 0]))
+  = fsum_idx Op sx (fun J => fmul Op (tget Op X (s :: J))
+                                     (fsum_idx Op (shape G) (fun K => fmul Op (tget Op G K) (tk_coeff Op fs J K)))).
+Proof. exact @tk_phi_mode_linear. Qed.
+Print Assumptions C19_tk_phi_mode_linear.
+
+Theorem C19_tk_phi_core_linear : forall (F : Type) (Op : fops F), is_ring Op ->
+  forall (X G : tensor F) (fs : list (tensor F)) (n : nat) (sx : list nat) (s : nat),
+  shape X = n :: sx -> s < n ->
+  fsumn Op (prod (shape G)) (fun c => fmul Op (tget Op (tk_phi_core Op X fs (shape G)) [s; c]) (tget Op G (unravel (shape G) c)))
+  = fsum_idx Op sx (fun J => fmul Op (tget Op X (s :: J))
+                                     (fsum_idx Op (shape G) (fun K => fmul Op (tget Op G K) (tk_coeff Op fs J K)))).
+Proof. exact @tk_phi_core_linear. Qed.
+Print Assumptions C19_tk_phi_core_linear.
+
 (* ---- the entrywise reconstructions of this model ARE the code-level cp_to_tensor / tucker_to_tensor (the models of
    tensorly/cp_tensor.py and tensorly/tucker_tensor.py of property C03: validation, khatri_rao + dot + fold, resp. the chain of
    mode products), on every input those accept; commutative ring ---- *)
@@ -332,3 +393,25 @@ Example C19_code_level_nonvacuous :
   Factorized.cp_to_tensor Zops (Some w) fs None = Ok (cp_to_tensor Zops w fs) /\
   Factorized.tucker_to_tensor Zops (mk [2; 2] [1; 0; 2; -1]%Z) fs None false = Ok (tucker_to_tensor Zops (mk [2; 2] [1; 0; 2; -1]%Z) fs).
 Proof. cbv zeta. split; [vm_compute; reflexivity|]. split; [repeat constructor|]. split; vm_compute; reflexivity. Qed.
+
+(* the block design matrices compute (Z instance): 2 samples of shape 2x2, one output mode of size 2, rank 2;
+   block 1 (input mode) and block 2 (the output mode) *)
+Example C19_cp_phi_nonvacuous :
+  let X := mk [2; 2; 2] [1; 2; 3; 4; -1; 0; 2; 5]%Z in
+  let fs := [mk [2; 2] [1; 2; 3; 4]%Z; mk [2; 2] [0; 1; -1; 2]%Z; mk [2; 2] [1; 1; 2; -1]%Z] in
+  let lhs := fsumn Zops 4 (fun c => fmul Zops (tget Zops (cp_phi_in Zops X fs [2] 2 1) [ravel [2; 2] [1; 0]; c])
+                                              (tget Zops (nth 1 fs (mk [] [])) [c / 2; c mod 2])) in
+  shape (cp_phi_in Zops X fs [2] 2 1) = [4; 4] /\ shape (cp_phi_out Zops X fs [2] 2 2) = [2; 2] /\
+  lhs = fsum_idx Zops [2; 2] (fun J => fmul Zops (tget Zops X (1 :: J)) (fsumn Zops 2 (fun r => cp_coeff Zops fs (J ++ [0]) r))) /\
+  lhs <> 0%Z.
+Proof. cbv zeta. repeat split; try (vm_compute; reflexivity). vm_compute. discriminate. Qed.
+
+Example C19_tk_phi_nonvacuous :
+  let X := mk [2; 2; 2] [1; 2; 3; 4; -1; 0; 2; 5]%Z in
+  let G := mk [2; 1] [2; -1]%Z in
+  let fs := [mk [2; 2] [1; 2; 3; 4]%Z; mk [2; 1] [1; -2]%Z] in
+  let lhs := fsumn Zops 4 (fun c => fmul Zops (tget Zops (tk_phi_mode Zops X G fs 0) [1; c]) (tget Zops (nth 0 fs (mk [] [])) [c / 2; c mod 2])) in
+  shape (tk_phi_mode Zops X G fs 0) = [2; 4] /\ shape (tk_phi_core Zops X fs [2; 1]) = [2; 2] /\
+  lhs = fsum_idx Zops [2; 2] (fun J => fmul Zops (tget Zops X (1 :: J)) (fsum_idx Zops [2; 1] (fun K => fmul Zops (tget Zops G K) (tk_coeff Zops fs J K)))) /\
+  lhs <> 0%Z.
+Proof. cbv zeta. repeat split; try (vm_compute; reflexivity). vm_compute. discriminate. Qed.
